@@ -101,6 +101,27 @@ def run_renamed_tree(pid):
     return {'patch': 'benign-renamed-tree (generated)', 'status': status, 'reported': new[:6]}
 
 
+def run_transformed_tree(pid, kind):
+    """The check on a generated whole-tree variant (sa/benign.py TRANSFORMS): it must stay silent."""
+    from .ctx import Check
+    from . import benign
+    label = 'benign-%s-tree (generated)' % kind
+    try:
+        ov, n = benign.transformed_tree(kind)
+    except Exception as e:       # noqa
+        return {'patch': label, 'status': 'inconclusive (variant could not be built: %r)' % e, 'reported': []}
+    mod = importlib.import_module('props.' + pid)
+    ck = Check(pid, tier='quick', level=getattr(mod, 'LEVEL', 'other'), repo=ov, quiet=True)
+    try:
+        mod.run(ck)
+        ck.finish()
+        new = [o.key for o in ck.result['new']]
+    except AnalysisBroken as e:
+        return {'patch': label, 'status': 'FALSE-ALARM on a behaviour-preserving edit', 'reported': ['analysis broken: ' + str(e)[:160]]}
+    status = ('silent (as required) on the tree with %d %s' % (n, benign.TRANSFORMS[kind][1])) if not new else 'FALSE-ALARM on a behaviour-preserving edit'
+    return {'patch': label, 'status': status, 'reported': new[:6]}
+
+
 def run(ck, pid):
     patches = sorted(glob.glob(os.path.join(VERIF, 'selftest', pid, '*.patch')))
     if len(patches) > 1:
@@ -110,6 +131,8 @@ def run(ck, pid):
     else:
         results = [run_variant(pid, p) for p in patches]
     results.append(run_renamed_tree(pid))
+    for kind in ('noop', 'unbraced'):
+        results.append(run_transformed_tree(pid, kind))
     ck.extra['seeded_variants'] = results
     noisy = [r for r in results if r['status'].startswith('FALSE-ALARM')]
     if noisy:
